@@ -1,7 +1,7 @@
 (* Proofs/C17_Instances.v - the decidable criteria evaluated by the kernel on the layouts / column tables regenerated
    from the current source (Gen/C17_WriterLayouts.v).  Each lemma states the column -> field map the parser obtains. *)
 From Coq Require Import Ascii String List Bool Arith ZArith Lia.
-From Verif Require Import Lib.Text Lib.Decimal Lib.Dyadic Model.C17_Layout Gen.C17_WriterLayouts.
+From Verif Require Import Lib.Text Lib.Decimal Lib.Dyadic Model.C17_Layout Gen.C17_WriterLayouts Proofs.C17_Sound.
 Import ListNotations.
 Local Open Scope string_scope.
 
@@ -84,3 +84,70 @@ Proof. vm_compute. split; reflexivity. Qed.
 Lemma sta_fields_in_ruler_l :
   fields_in_ruler ruler_sta1 L_sta1 = true /\ fields_in_ruler ruler_sta2 L_sta2 = true /\ fields_in_ruler ruler_sta3 L_sta3 = true.
 Proof. vm_compute. repeat split; reflexivity. Qed.
+
+(* ============================================================================================= round trips
+   The column maps above, fed into the generic theorem (Proofs/C17_Sound.v): for EVERY record whose values fit, the
+   matching parser's columns of the written line are exactly the stripped formatted values of the stated fields. *)
+Notation C n cs := (strip (nth n cs "")).
+
+Ltac roundtrip Lmap :=
+  intros vals cs Hf; subst cs;
+  rewrite (layout_compatible_values_l _ _ vals);
+  [ rewrite Lmap; reflexivity | unfold compatible; rewrite Lmap; reflexivity | exact Hf ].
+
+Lemma roundtrip_bernese_crd_l : forall vals, let cs := contents L_crd vals in fits L_crd cs = true ->
+  parse_slices P_crd (render_line L_crd vals) = [C 0 cs; C 1 cs; C 2 cs; C 3 cs; C 4 cs; C 5 cs; "A"].
+Proof. roundtrip compatible_bernese_crd_l. Qed.
+
+Lemma roundtrip_bernese_clu_l : forall vals, let cs := contents L_clu vals in fits L_clu cs = true ->
+  parse_slices P_clu (render_line L_clu vals) = [C 0 cs; ""; "1"].
+Proof. roundtrip compatible_bernese_clu_l. Qed.
+
+Lemma roundtrip_bernese_sta_v52_l : forall vals, let cs := contents L_sta2 vals in fits L_sta2 cs = true ->
+  parse_slices P_sta52 (render_line L_sta2 vals) =
+  [C 0 cs; C 1 cs; "001"; C 2 cs; C 3 cs; C 4 cs; C 5 cs; C 6 cs; C 7 cs; C 8 cs; C 9 cs; C 10 cs; C 11 cs; C 12 cs; C 13 cs;
+   C 14 cs; C 15 cs].
+Proof. roundtrip compatible_bernese_sta_v52_l. Qed.
+
+Lemma roundtrip_tms_header_l : forall vals, let cs := contents L_tms_header vals in fits L_tms_header cs = true ->
+  parse_slices P_tms_header (render_line L_tms_header vals) = [C 0 cs; C 1 cs; C 2 cs; C 3 cs; C 4 cs; C 5 cs; C 6 cs; C 7 cs].
+Proof. roundtrip compatible_tms_header_l. Qed.
+
+Lemma fr_map (l : layout) (k : string) :
+  span_map l P_tms_file_reference = [Some (PConst k); Some (PFld 0)] ->
+  forall vals, let cs := contents l vals in fits l cs = true ->
+  parse_slices P_tms_file_reference (render_line l vals) = [k; C 0 cs].
+Proof. intro Lmap. roundtrip Lmap. Qed.
+
+Lemma roundtrip_tms_file_reference_l :
+  (forall vals, let cs := contents L_tms_fr_description vals in fits L_tms_fr_description cs = true ->
+     parse_slices P_tms_file_reference (render_line L_tms_fr_description vals) = ["DESCRIPTION"; C 0 cs]) /\
+  (forall vals, let cs := contents L_tms_fr_contact vals in fits L_tms_fr_contact cs = true ->
+     parse_slices P_tms_file_reference (render_line L_tms_fr_contact vals) = ["CONTACT"; C 0 cs]) /\
+  (forall vals, let cs := contents L_tms_fr_software vals in fits L_tms_fr_software cs = true ->
+     parse_slices P_tms_file_reference (render_line L_tms_fr_software vals) = ["SOFTWARE"; C 0 cs]) /\
+  (forall vals, let cs := contents L_tms_fr_input vals in fits L_tms_fr_input cs = true ->
+     parse_slices P_tms_file_reference (render_line L_tms_fr_input vals) = ["INPUT"; C 0 cs]) /\
+  (forall vals, let cs := contents L_tms_fr_version vals in fits L_tms_fr_version cs = true ->
+     parse_slices P_tms_file_reference (render_line L_tms_fr_version vals) = ["VERSION NUMBER"; C 0 cs]).
+Proof. repeat split; apply fr_map; vm_compute; reflexivity. Qed.
+
+Lemma roundtrip_tms_ref_coordinate_l : forall vals, let cs := contents L_tms_refcoord vals in fits L_tms_refcoord cs = true ->
+  parse_slices P_tms_refcoord (render_line L_tms_refcoord vals) = [C 0 cs; "A"; "----"; "P"; C 1 cs; C 2 cs; C 3 cs; C 4 cs; C 5 cs].
+Proof. roundtrip compatible_tms_ref_coordinate_l. Qed.
+
+Lemma roundtrip_tms_columns_l : forall vals, let cs := contents L_tms_columns vals in fits L_tms_columns cs = true ->
+  parse_slices P_tms_columns (render_line L_tms_columns vals) = [C 0 cs; C 1 cs; C 2 cs; C 3 cs].
+Proof. roundtrip compatible_tms_columns_l. Qed.
+
+(* and for the numbers: float() of the pos_x/pos_y/pos_z columns of a written CRD row is the printed decimal of the input *)
+Lemma crd_reads_printed_coordinate_l : forall vals k d m e,
+  fits L_crd (contents L_crd vals) = true -> (3 <= k <= 5)%nat ->
+  nth k (contents L_crd vals) "" = py_fix d (Dy m e) -> (fix_mant d m e <> 0 \/ 0 < m)%Z ->
+  parse_float (nth k (parse_slices P_crd (render_line L_crd vals)) "") = Some (dec_value (fix_mant d m e) d).
+Proof.
+  intros vals k d m e Hf Hk Hc Hr.
+  apply (column_reads_printed_value_l L_crd P_crd vals k k d m e); try assumption.
+  - unfold compatible. rewrite compatible_bernese_crd_l. reflexivity.
+  - rewrite compatible_bernese_crd_l. destruct k as [|[|[|[|[|[|k]]]]]]; try lia; reflexivity.
+Qed.
